@@ -9,13 +9,15 @@ import hashlib
 
 VERIF = os.path.dirname(os.path.dirname(os.path.abspath(__file__)))
 REPO = os.environ.get("CACHED_REPO", "/repo")
-BUILD = os.path.join(VERIF, ".build")
+# (the four overrides exist only so that seeded changes can be tried in parallel on scratch worktrees, see seedmatrix.sh;
+#  the registered checks never set them)
+BUILD = os.environ.get("VERIF_BUILD_DIR", os.path.join(VERIF, ".build"))
 TARGET = os.path.join(BUILD, "target")
 TMP = os.path.join(BUILD, "tmp")
 COQ = os.path.join(VERIF, "coq")
-HARNESS_DIR = os.path.join(VERIF, "harness")
-EVIDENCE = os.path.join(VERIF, "evidence")
-REPLAYS = os.path.join(VERIF, "replays")
+HARNESS_DIR = os.environ.get("VERIF_HARNESS_DIR", os.path.join(VERIF, "harness"))
+EVIDENCE = os.environ.get("VERIF_EVIDENCE_DIR", os.path.join(VERIF, "evidence"))
+REPLAYS = os.environ.get("VERIF_REPLAYS_DIR", os.path.join(VERIF, "replays"))
 CORPUS = os.path.join(VERIF, "corpus")
 NPROC = 16
 
